@@ -1,0 +1,18 @@
+//go:build verif
+
+// Contracts read by /verif/govc (comment-only; never compiled into the node).
+
+package fuzz
+
+//@ func compactEncode
+//@   props C12
+//@   spec nat.smt2
+//@   ensures [cases spec.nat_l(x) 0..8] canonical: len(result) == int(spec.nat_len(x)) && forall(i, 0, 9, i < len(result) ==> result[i] == spec.nat_byte(x, uint64(i)))
+
+//@ func compactDecode
+//@   props C12 C14
+//@   spec nat.smt2
+//@   ensures [cases spec.nat_l(result0) 0..8] strict: result1 != 0 ==> result1 == int(spec.nat_len(result0)) && len(data) >= result1 && forall(i, 0, 9, i < result1 ==> data[i] == spec.nat_byte(result0, uint64(i)))
+//@   ghost x uint64
+//@   ensures [cases spec.nat_l(x) 0..8] complete: (len(data) >= int(spec.nat_len(x)) && forall(i, 0, 9, i < int(spec.nat_len(x)) ==> data[i] == spec.nat_byte(x, uint64(i)))) ==> (result0 == x && result1 == int(spec.nat_len(x)))
+//@   ensures reject: result1 == 0 ==> result0 == 0
